@@ -40,14 +40,21 @@ Fresh == <<"r1", "r2", "r3", "r4", "r5", "r6", "r7", "r8", "r9">>
 -----------------------------------------------------------------------------
 (* ------------------------------ bus family ------------------------------ *)
 (* configuration <<id, standard, address_width, data_width, masters added   *)
-(* before the history (named cpu0, cpu1), io_regions_check, interconnect>>  *)
-WB32  == <<"wb32",   "wishbone", 32, 32, 2, 1, "shared">>
-WB64  == <<"wb64",   "wishbone", 64, 64, 2, 1, "shared">>
-WB32X == <<"wb32x",  "wishbone", 32, 32, 2, 1, "crossbar">>
-AXL32 == <<"axl32",  "axi-lite", 32, 64, 2, 1, "shared">>
-WBM0  == <<"wb32m0", "wishbone", 32, 32, 0, 1, "shared">>
-WBM1  == <<"wb32m1", "wishbone", 32, 32, 1, 1, "shared">>
-WBNC  == <<"wb32nc", "wishbone", 32, 32, 2, 0, "shared">>   \* CPUNone: IO check off
+(* before the history (named cpu0, cpu1), io_regions_check, interconnect,   *)
+(* rsv>>.  rsv = k > 0: the first k calls of a history are not made one by  *)
+(* one but handed to the constructor as SoCBusHandler(reserved_regions =    *)
+(* {name: region, ...}) (what SoC(bus_reserved_regions = ...) does); they   *)
+(* can only be add_region requests with fresh names (Usable below).         *)
+WB32  == <<"wb32",   "wishbone", 32, 32, 2, 1, "shared", 0>>
+WB64  == <<"wb64",   "wishbone", 64, 64, 2, 1, "shared", 0>>
+WB32X == <<"wb32x",  "wishbone", 32, 32, 2, 1, "crossbar", 0>>
+AXL32 == <<"axl32",  "axi-lite", 32, 64, 2, 1, "shared", 0>>
+WBM0  == <<"wb32m0", "wishbone", 32, 32, 0, 1, "shared", 0>>
+WBM1  == <<"wb32m1", "wishbone", 32, 32, 1, 1, "shared", 0>>
+WBNC  == <<"wb32nc", "wishbone", 32, 32, 2, 0, "shared", 0>>   \* CPUNone: IO check off
+WB32R2 == <<"wb32r2", "wishbone", 32, 32, 2, 1, "shared", 2>>  \* two reserved regions
+WB32R3 == <<"wb32r3", "wishbone", 32, 32, 2, 1, "shared", 3>>
+WB64R2 == <<"wb64r2", "wishbone", 64, 64, 2, 1, "shared", 2>>
 
 (* call templates <<op, dup, o, s, c, lk, sl, dc>>:                          *)
 (*  op "add": region = SoCRegion(origin = o (None if AUTO), size = s,        *)
@@ -115,6 +122,20 @@ BusScenarios ==
     \* slaves on linker regions (as LiteX does for the ethmac rx/tx buffers inside their parent)
     [mode |-> "x", id |-> "lkslave", cfgs |-> {WB32}, pres |-> {<<>>}, len |-> IF Quick THEN 2 ELSE 3,
      alpha |-> Fx({0, 2, 4}, {2, 4}, {1}, {<<0, 0>>, <<0, 1>>, <<1, 0>>, <<1, 1>>})],
+    \* IO regions whose origin is NOT a multiple of the (rounded) size that is allocated in them: the
+    \* allocator must align on the absolute address, not relative to the IO region; regions with and
+    \* without a slave (only the former meet SoCRegion.decoder's own alignment check at finalize)
+    [mode |-> "x", id |-> "iomis", cfgs |-> IF Quick THEN {WB32} ELSE {WB32, WB64},
+     pres |-> {<<IoT(2, 6)>>, <<IoT(6, 5)>>, <<IoT(3, 4)>>, <<IoT(1, 3), IoT(10, 5)>>}, len |-> IF Quick THEN 3 ELSE 4,
+     alpha |-> Au({1, 2, 3, 4}, {0}, {0, 1}) \cup Fx({3, 6, 10}, {1}, {0}, PlainSlave)],
+    \* regions reserved through the constructor (SoC(bus_reserved_regions = ...)), then ordinary requests
+    [mode |-> "x", id |-> "rsv", cfgs |-> IF Quick THEN {WB32R2} ELSE {WB32R2, WB32R3, WB64R2}, pres |-> {<<>>},
+     len |-> 3,
+     alpha |-> (IF Quick THEN Fx({0, 2, 4}, {1, 3}, {1}, {<<0, 0>>, <<0, 1>>, <<1, 0>>}) \cup Au({3}, {1}, {0, 1})
+                              \cup Io({8}, {4}) \cup Fx({8}, {1}, {0}, {<<0, 0>>})
+                ELSE Fx({0, 2, 4, 8}, {1, 3, 4}, {1}, {<<0, 0>>, <<0, 1>>, <<1, 0>>}) \cup Au({1, 3}, {1}, {0, 1})
+                     \cup Io({8, 12}, {4}) \cup Fx({8, 12}, {1}, {0}, {<<0, 0>>}))
+               \cup {<<"att", j, 0, 0, 0, 0, 0, 0>> : j \in {1, 2}}],
     \* long mixed histories over a wide alphabet: sampled (tlc -simulate), not enumerated
     [mode |-> "s", id |-> "deepmix", cfgs |-> {WB32, WB64},
      pres |-> {<<>>, <<IoT(8, 5)>>, <<IoT(8, 8)>>, <<IoT(0, 3), IoT(8, 6)>>}, len |-> 7,
@@ -133,10 +154,13 @@ BusResolve(hh, t) ==
 (* space); kind "irq": SoCIRQHandler(n_irqs = p1), enabled; "irqoff": not    *)
 (* enabled.  n_locs is what the configuration asked for - the legal range    *)
 (* of a location is 0 .. n_locs-1.                                           *)
-CsrCfg(id, aw, paging) == <<id, "csr", (4 * (2^aw)) \div paging, aw, paging>>
-IrqCfg(id, n)          == <<id, "irq", n, n, 0>>
+(* rsv = k > 0: the first k requests are handed to the constructor as        *)
+(* reserved_csrs = {name: n, ...} (what SoCCore does with its csr_map).      *)
+CsrCfgR(id, aw, paging, k) == <<id, "csr", (4 * (2^aw)) \div paging, aw, paging, k>>
+CsrCfg(id, aw, paging) == CsrCfgR(id, aw, paging, 0)
+IrqCfg(id, n)          == <<id, "irq", n, n, 0, 0>>
 LocCfgs == {CsrCfg("csr4", 14, 16384), IrqCfg("irq4", 4), IrqCfg("irq2", 2)}
-           \cup (IF Quick THEN {} ELSE {CsrCfg("csr8", 14, 8192), <<"irqoff", "irqoff", 4, 4, 0>>})
+           \cup (IF Quick THEN {} ELSE {CsrCfg("csr8", 14, 8192), <<"irqoff", "irqoff", 4, 4, 0, 0>>})
 
 (* call template <<"loc", dup, n, use_loc_if_exists>>; n = LAUTO: automatic; *)
 (* boundary numbers 0, n_locs-1, n_locs, n_locs+1 (rich: also -1 and 1)      *)
@@ -150,10 +174,15 @@ LocScenarios ==
      pres |-> {<<>>}, len |-> 4, alpha |-> {}],
     \* fill the handler completely: the allocator must refuse, not hand out n_locs
     [mode |-> "x", id |-> "locfill", cfgs |-> LocCfgs, pres |-> {<<>>}, len |-> IF Quick THEN 5 ELSE 6, alpha |-> {}],
+    \* locations reserved through the constructor, then ordinary requests
+    [mode |-> "x", id |-> "locrsv",
+     cfgs |-> {CsrCfgR("csr4r2", 14, 16384, 2)} \cup (IF Quick THEN {} ELSE {CsrCfgR("csr4r3", 14, 16384, 3), CsrCfgR("csr8r2", 14, 8192, 2)}),
+     pres |-> {<<>>}, len |-> IF Quick THEN 3 ELSE 4, alpha |-> {}],
     [mode |-> "s", id |-> "locdeep", cfgs |-> LocCfgs, pres |-> {<<>>}, len |-> 7, alpha |-> {}] }
 
 LocAlphaOf(s, c, hh) == CASE s = "locs"    -> LocAlpha(c[3], Len(hh) + 1, ~Quick)
                           [] s = "locs4"   -> LocAlpha(c[3], Len(hh) + 1, FALSE)
+                          [] s = "locrsv"  -> LocAlpha(c[3], Len(hh) + 1, FALSE)
                           [] s = "locdeep" -> LocAlpha(c[3], Len(hh) + 1, TRUE)
                           [] s = "locfill" -> LocFill(c[3])
 
@@ -203,7 +232,13 @@ Alpha(hh) == IF Family = "loc" THEN LocAlphaOf(sid, cfg, hh) ELSE ScOf[sid].alph
 Resolve(hh, t) == CASE Family = "bus"  -> BusResolve(hh, t)
                     [] Family = "loc"  -> LocResolve(hh, t)
                     [] Family = "plat" -> t
-Usable(hh, t) == IF Family = "plat" THEN TRUE ELSE t[2] <= Len(hh)      \* dup refers to an earlier call
+(* dup refers to an earlier call; a call that is delivered through the constructor (position <= rsv) *)
+(* is a plain request with a fresh name: a dict has one entry per name, and the constructor knows    *)
+(* neither slaves nor use_loc_if_exists                                                              *)
+Rsv == IF Family = "bus" THEN cfg[8] ELSE IF Family = "loc" THEN cfg[6] ELSE 0
+Usable(hh, t) == CASE Family = "plat" -> TRUE
+                   [] Family = "bus"  -> t[2] <= Len(hh) /\ (Len(hh) < Rsv => (t[1] \in {"add", "io"} /\ t[2] = 0 /\ t[7] = 0))
+                   [] Family = "loc"  -> t[2] <= Len(hh) /\ (Len(hh) < Rsv => (t[2] = 0 /\ t[4] = 0))
 
 RECURSIVE ResolveAll(_, _)
 ResolveAll(hh, ts) == IF ts = <<>> THEN hh ELSE ResolveAll(Append(hh, Resolve(hh, Head(ts))), Tail(ts))
